@@ -23,7 +23,7 @@ ASSUMPTIONS = ['closed feature intervals [start,end]; a range query [a,b] with a
                'strand convention for FeatureAnnotatedMolecule as documented (None unstranded, False same strand as R1, True other strand); SingleEndTranscriptFragment only checked unstranded']
 MIN_NONTRIVIAL = {'quick': 3000, 'thorough': 1000000}
 REQUIRED_MONITORS = ['ret:findFeaturesAt', 'ret:findFeaturesBetween', 'ret:findFeaturesAtPysamAlign0', 'ret:findFeaturesAtPysamAlign1',
-                     'ret:molecule.annotate0', 'ret:molecule.annotate1', 'ret:fragment.annotate', 'history:second_round_queries', 'universe:near_or_beyond_2^31', 'history:queried_without_explicit_sort', 'history:round_adding_to_one_contig_only', 'reads:aligned_bases_spelled_eq_x_only', 'ret:findFeaturesAt_on_second_container']
+                     'ret:molecule.annotate0', 'ret:molecule.annotate1', 'ret:fragment.annotate', 'history:second_round_queries', 'universe:near_or_beyond_2^31', 'history:queried_without_explicit_sort', 'history:round_adding_to_one_contig_only', 'reads:aligned_bases_spelled_eq_x_only', 'ret:findFeaturesAt_on_second_container', 'features:same_interval_name_strand_other_data']
 
 
 def gen_cases(tier, seed):
@@ -131,6 +131,10 @@ def run_case(case):
             if mode < 0.15 and feats.get(c):
                 f0 = r.choice(sorted(feats[c], key=repr))
                 tup = f0  # byte-identical duplicate
+                if r.random() < 0.5:
+                    # same interval, name and strand, other payload (the exon of a second transcript, a second allele): a feature of its own
+                    tup = (f0[0], f0[1], f0[2], f0[3], f'id{next(uid)}')
+                    acc.count('features:same_interval_name_strand_other_data')
             else:
                 if mode < 0.3:
                     s = r.randint(0, U)
